@@ -32,6 +32,23 @@ Legs:
 A disagreement between the reference and ssh-keygen is a harness error
 (inconclusive), never a violation.  A failing ssh-keygen is counted in
 tool_skipped.
+
+Mechanism keys.  Two divergences from the OpenSSH rules get a key of their
+own (a model of the divergence is evaluated next to the reference and names
+the mechanism when it reproduces asyncssh's answer; it is never the oracle):
+  address_pattern_ignores_port_in_wildcard_line   in a line that also holds a
+      wildcard/negated pattern an address literal (10.1.2.3, ::1) matches by
+      address value, so it also matches (or, negated, excludes) a lookup for
+      [addr]:port; in a line without wildcard it does not
+  revoked_port_entry_dropped_by_fallback   a lookup for a non-default port
+      that selects only @revoked lines falls back to the plain name and the
+      revoked keys selected for [host]:port disappear from the result
+Everything else is reported as known_hosts_result_differs /
+known_hosts_port_result_differs / known_hosts_cidr_result_differs /
+known_hosts_differs_from_ssh_keygen / result_changes_when_lines_<relation> /
+damaged_line_affects_others / damaged_line_breaks_load /
+well_formed_file_rejected / authorized_keys_accept_decision_differs /
+authorized_keys_options_differ.
 """
 
 import base64
@@ -475,6 +492,8 @@ def gen_query(rng, entries, ports):
         addr = rng.choice(ADDRS)
     # canonical text form only (OpenSSH matches addresses textually); a host
     # given as an address literal *is* the address
+    if addr and _ip(addr) is not None:
+        addr = str(_ip(addr))
     if _ip(host) is not None:
         host = str(_ip(host))
         addr = rng.choice(['', host])
